@@ -159,3 +159,22 @@ func H_C02_verbs(verb int) {
 	vAssert("verb-format", ok && val == uint64(n))
 	vReach("nonzero", n > 0)
 }
+
+// the longest numerals the default input limit admits (128 bytes): concrete values at the boundary
+//
+//verif:harness C02 quick
+func H_C02_longest() {
+	for _, n := range []Number{128000, 127001, 116888, 127888, 99999} {
+		for _, f := range []Format{0, FormatLowerCase, FormatLong} {
+			text, _ := DefaultFormatter(nil, n, f)
+			if len(text) > MaxInputLength {
+				continue
+			}
+			back, err := DefaultParser(text, 0)
+			vAssert("boundary-numeral-parses-back", err == nil && back == n)
+			vAssert("boundary-numeral-valid", Valid(string(text), 0) == nil)
+		}
+	}
+	t128, _ := DefaultFormatter(nil, 128000, 0)
+	vAssert("128-byte-numeral", len(t128) == 128)
+}
